@@ -331,6 +331,14 @@ func c13e2e(pre [][]c13row, rows []c13row, class string, inQuantifier bool) {
 			c13send(mux, "GET", "solutions/"+r.label, "", "")
 			labels = append(labels, c20hex(r.label))
 		}
+		// while the EARLIER summary is loaded, the model is set from the encodings of the summary that will be
+		// posted next (in reverse row order, so that the last one set is the first one set again afterwards):
+		// whatever the engine concluded about them then must not survive the next POST /solutions
+		for i := len(rows) - 1; i >= 1; i-- {
+			body, _ := json.Marshal([]J{{"Name": "Encoding", "Value": rows[i].enc}})
+			c13send(mux, "PATCH", "model", string(body), "application/json")
+			c13stats["history_patches"]++
+		}
 		preJ = append(preJ, J{"csv": pr, "labels": labels})
 	}
 	cj["pre"] = preJ
@@ -450,7 +458,16 @@ func c13e2e(pre [][]c13row, rows []c13row, class string, inQuantifier bool) {
 			}
 		}
 		// front membership: set the engine's model from every row's encoding
-		for li, row := range rows {
+		// non-as-is rows first (the first one is the encoding the model was last set from before the POST), as-is last
+		order := []int{}
+		for li := 1; li < len(rows); li++ {
+			order = append(order, li)
+		}
+		if len(rows) > 0 {
+			order = append(order, 0)
+		}
+		for _, li := range order {
+			row := rows[li]
 			pj := J{"enc": c20hex(row.enc), "row": li}
 			// Encoding(Decode(e)) by the real archive code, on a clone of the scenario's model
 			cm := new(archiveCompressor).recode(ref, row.enc)
@@ -683,7 +700,10 @@ func runC13(args []string) {
 		c13e2e(nil, []c13row{asRow, {label: "1-of-2", enc: "3", note: "a", vars: asVars, realBits: -1}, {label: "1-of-2", enc: "5", note: "b", vars: asVars, realBits: -1}}, "duplicate_labels", false)
 		c13e2e(nil, []c13row{asRow}, "asis_only", false)
 		// the guards added by ac75323 / 09c7c9e: a variable column missing, a column that is no decision variable
-		fewer := func(r c13row) c13row { r.vars = append(solution.VariableSetSummary{}, r.vars[:len(r.vars)-1]...); return r }
+		fewer := func(r c13row) c13row {
+			r.vars = append(solution.VariableSetSummary{}, r.vars[:len(r.vars)-1]...)
+			return r
+		}
 		c13e2e(nil, []c13row{fewer(asRow), fewer(realRow(1, 1, 3))}, "one_variable_column_missing", false)
 		renamed := func(r c13row) c13row {
 			r.vars = append(solution.VariableSetSummary{}, r.vars...)
